@@ -24,6 +24,9 @@ pub const LANGS: &[(&str, &[&str])] = &[
     ("Makefile", &[
         "CC := gcc", "all: build test", "\t$(CC) -o $@ $^ # link", "build:", "\tcargo build --release", ".PHONY: all clean", "clean:", "\trm -rf target/", "ifeq ($(OS),Windows_NT)", "endif",
     ]),
+    ("cmake", &[
+        "cmake_minimum_required(VERSION 3.10)", "project(demo C CXX)", "set(SRC main.c util.c) # sources", "add_executable(demo ${SRC})", "if(WIN32)", "endif()", "target_link_libraries(demo PRIVATE m)", "message(STATUS \"building ${PROJECT_NAME}\")", "foreach(f IN LISTS SRC)", "endforeach()",
+    ]),
 ];
 
 pub fn lang(t: &mut Tape) -> (&'static str, &'static [&'static str]) {
@@ -43,7 +46,22 @@ pub fn two_names(t: &mut Tape, lang: &str) -> (String, String) {
         // an extension-less name and a name with the language's extension
         let d1 = dirs[t.below(dirs.len())];
         let d2 = dirs[t.below(dirs.len())];
-        let (a, b) = (format!("{}Makefile", d1), format!("{}{}.mk", d2, stems[t.below(4)]));
+        let whole = *t.pick(&["Makefile", "Makefile", "GNUmakefile", "Makefile.am", "makefile.in"]);
+        let (a, b) = (format!("{}{}", d1, whole), format!("{}{}.mk", d2, stems[t.below(4)]));
+        return if t.coin() { (a, b) } else { (b, a) };
+    }
+    // a whole file name the language registers (some contain a dot whose "extension" belongs to
+    // another language: CMakeLists.txt, Cargo.lock) and a name with the language's extension
+    let whole: &[&str] = match lang {
+        "cmake" => &["CMakeLists.txt"],
+        "toml" => &["Cargo.lock", "Pipfile", "poetry.lock"],
+        "py" => &["SConstruct"],
+        _ => &[],
+    };
+    if !whole.is_empty() && t.chance(1, 3) {
+        let d1 = dirs[t.below(dirs.len())];
+        let d2 = dirs[t.below(dirs.len())];
+        let (a, b) = (format!("{}{}", d1, t.pick(whole)), format!("{}{}.{}", d2, stems[t.below(4)], lang));
         return if t.coin() { (a, b) } else { (b, a) };
     }
     if lang == "Makefile" {
